@@ -9,6 +9,7 @@
   modelled as exact arithmetic (trusted base: Base/F64, amd64 float→int conversion).
 -/
 import OttoVerif.Base.F64
+import OttoVerif.Base.ParseNumber
 namespace OttoVerif.C16
 open OttoVerif.F64
 
@@ -137,5 +138,865 @@ def convertNumeric (v : Num) (t : NT) : Res Num :=
       let i64 := goInt64 x                                                  -- l.237
       if eqNum (ofInt i64) x then convertFromInt true i64 t                 -- l.238, then l.250
       else .rangeErr
+
+/-! ## Go types, JavaScript values, Go values -/
+
+abbrev Str := List Nat      -- Go string = bytes
+
+mutual
+/-- Go parameter / element / field types of the bridged family -/
+inductive GT where
+  | bool | num (t : NT) | str | any
+  | slice (e : GT)
+  | map (e : GT)                 -- map[string]e
+  | ptr (e : GT)
+  | struct (fs : Fields)
+/-- struct type description: Go field name, first part of the json tag ("" = none), embedded?, type -/
+inductive Fields where
+  | nil
+  | cons (name : Str) (tag : Str) (anon : Bool) (ty : GT) (rest : Fields)
+end
+
+mutual
+/-- JavaScript argument values (numbers carry their Go payload kind) -/
+inductive JV where
+  | undef | null
+  | bool (b : Bool)
+  | num (n : Num)
+  | str (s : Str)
+  | arr (es : JVs)               -- an Array (class "Array"), possibly with holes
+  | obj (ps : JPs)               -- a plain Object: own enumerable data properties in insertion order
+inductive JVs where
+  | nil
+  | hole (rest : JVs)
+  | cons (v : JV) (rest : JVs)
+inductive JPs where
+  | nil
+  | cons (k : Str) (v : JV) (rest : JPs)
+end
+
+mutual
+/-- Go values as the callee observes them (nil and empty slices/maps are not distinguished) -/
+inductive GV where
+  | bool (b : Bool)
+  | num (n : Num)
+  | str (s : Str)
+  | anyNil
+  | any (v : GV)                 -- a non-nil interface{} holding v
+  | ptrNil
+  | ptr (v : GV)
+  | slice (es : GVs)
+  | map (ps : GPs)               -- in insertion order; compared sorted
+  | struct (fs : GVs)
+inductive GVs where
+  | nil
+  | cons (v : GV) (rest : GVs)
+inductive GPs where
+  | nil
+  | cons (k : Str) (v : GV) (rest : GPs)
+end
+
+def GVs.append : GVs → GVs → GVs
+  | .nil, b => b
+  | .cons v r, b => .cons v (r.append b)
+
+def GVs.length : GVs → Nat
+  | .nil => 0
+  | .cons _ r => r.length + 1
+
+def GPs.set (k : Str) (v : GV) : GPs → GPs            -- reflect SetMapIndex
+  | .nil => .cons k v .nil
+  | .cons k' v' r => if k' = k then .cons k v r else .cons k' v' (GPs.set k v r)
+
+def GVs.setAt : GVs → Nat → GV → GVs
+  | .nil, _, _ => .nil
+  | .cons _ r, 0, x => .cons x r
+  | .cons v r, n+1, x => .cons v (r.setAt n x)
+
+def GVs.getAt : GVs → Nat → Option GV
+  | .nil, _ => none
+  | .cons v _, 0 => some v
+  | .cons _ r, n+1 => r.getAt n
+
+def zeroNum : NT → Num
+  | .i k => .int k 0 | .f32 => .f32 zero | .f64 => .f64 zero
+
+mutual
+/-- reflect.Zero(t) -/
+def GT.zero : GT → GV
+  | .bool => .bool false
+  | .num t => .num (zeroNum t)
+  | .str => .str []
+  | .any => .anyNil
+  | .slice _ => .slice .nil
+  | .map _ => .map .nil
+  | .ptr _ => .ptrNil
+  | .struct fs => .struct fs.zeros
+def Fields.zeros : Fields → GVs
+  | .nil => .nil
+  | .cons _ _ _ ty rest => .cons ty.zero rest.zeros
+end
+
+/-- pointer depth and pointee of `***T` -/
+def GT.depth : GT → Nat
+  | .ptr e => e.depth + 1
+  | _ => 0
+def GT.base : GT → GT
+  | .ptr e => e.base
+  | t => t
+
+def wrapPtr : Nat → GV → GV
+  | 0, v => v
+  | n+1, v => .ptr (wrapPtr n v)
+
+def JV.isNullish : JV → Bool
+  | .undef | .null => true
+  | _ => false
+
+/-! ## fieldIndexByName (runtime.go:291) and struct field access -/
+
+/-- validGoStructName (type_go_struct.go:93): first byte in 'A'..'Z' -/
+def validGoStructName : Str → Bool
+  | [] => false
+  | c :: _ => 65 ≤ c ∧ c ≤ 90
+
+def dash : Str := [45]
+
+mutual
+def fieldIndexT (t : GT) (name : Str) : Option (List Nat) :=
+  match t with
+  | .struct fs => fieldIndexF fs 0 name
+  | _ => none
+def fieldIndexF (fs : Fields) (i : Nat) (name : Str) : Option (List Nat) :=
+  match fs with
+  | .nil => none
+  | .cons fname tag anon ty rest =>
+    if !validGoStructName fname then fieldIndexF rest (i+1) name          -- l.299
+    else
+      match (if anon then (fieldIndexT ty name) else none) with           -- l.303-312 (non-struct types yield none)
+      | some p => some (i :: p)
+      | none =>
+        if tag ≠ [] ∧ tag = dash then fieldIndexF rest (i+1) name         -- l.316
+        else if tag ≠ [] ∧ tag = name then some [i]                       -- l.320
+        else if fname = name then some [i]                                -- l.325
+        else fieldIndexF rest (i+1) name
+end
+
+def fieldIndexByName (t : GT) (name : Str) : Option (List Nat) := fieldIndexT t.base name
+
+def Fields.nth : Fields → Nat → Option (Str × Str × Bool × GT)
+  | .nil, _ => none
+  | .cons n tg a ty _, 0 => some (n, tg, a, ty)
+  | .cons _ _ _ _ r, i+1 => r.nth i
+
+/-- type reached by an index path -/
+def typeAt : GT → List Nat → Option GT
+  | t, [] => some t
+  | .struct fs, i :: p => match fs.nth i with | some (_, _, _, ty) => typeAt ty p | none => none
+  | _, _ :: _ => none
+
+/-- reflect FieldByIndex (read) -/
+def gvAt : GV → List Nat → Option GV
+  | v, [] => some v
+  | .struct fs, i :: p => match fs.getAt i with | some f => gvAt f p | none => none
+  | _, _ :: _ => none
+
+/-- Field(i)…Set(x) along an index path -/
+def gvSetAt : GV → List Nat → GV → GV
+  | _, [], x => x
+  | .struct fs, i :: p, x => match fs.getAt i with
+    | some f => .struct (fs.setAt i (gvSetAt f p x))
+    | none => .struct fs
+  | v, _ :: _, _ => v
+
+/-! ## Value → string / bool helpers used by the bridge -/
+
+def natDigitsAux : Nat → Nat → List Nat → List Nat
+  | 0, _, acc => acc
+  | fuel+1, n, acc => if n < 10 then (48 + n) :: acc else natDigitsAux fuel (n / 10) ((48 + n % 10) :: acc)
+
+/-- decimal digits of a natural number, as bytes -/
+def natDec (n : Nat) : Str := natDigitsAux (n + 1) n []
+
+def intDec (i : Int) : Str := if i < 0 then 45 :: natDec i.natAbs else natDec i.natAbs
+
+def ofAscii (s : String) : Str := s.toList.map Char.toNat
+
+def stripTrailingZeros (ds : Str) : Str := (ds.reverse.dropWhile (· = 48)).reverse
+
+/-- strconv.FormatFloat(x,'g',-1,64) layout for shortest digits `ds` of an integer with decimal digits `all`:
+    eprec = 6 when shortest (ftoa.go: %e is used if exp < -4 || exp >= eprec); exponent has at least two digits -/
+def goG (ds all : Str) (exp : Nat) : Str :=
+  if exp ≥ 6 then
+    let mant : Str := match ds with
+      | [] => []
+      | d :: [] => [d]
+      | d :: rest => d :: 46 :: rest
+    let e2 : Str := if exp < 10 then 48 :: natDec exp else natDec exp
+    mant ++ [101, 43] ++ e2
+  else all
+
+/-- Go `fmt.Sprintf("%v", x)` for a float64 (= strconv 'g', shortest digits).
+    Modelled for NaN, ±Inf, ±0 and integral |x| < 2^53 (whose shortest digits are the decimal digits without
+    trailing zeros); other doubles are never generated for this path (`none`). -/
+def goFmtFloat (x : FV) : Option Str :=
+  match x with
+  | .nan => some (ofAscii "NaN")
+  | .inf s => some (ofAscii (if s then "-Inf" else "+Inf"))
+  | .fin s m e =>
+    if m = 0 then some (ofAscii (if s then "-0" else "0"))
+    else if isIntegral m e ∧ truncAbs m e < 2^53 then
+      let all := natDec (truncAbs m e)
+      some ((if s then [45] else []) ++ goG (stripTrailingZeros all) all (all.length - 1))
+    else none
+
+/-- what `fmt.Sprintf("%v", v.value)` prints for a number Value (runtime.go:416) -/
+def goFmtV : Num → Option Str
+  | .int _ i => some (intDec i)
+  | .f64 x => goFmtFloat x
+  | .f32 _ => none
+
+/-- JavaScript ToString of a Number (ES5 9.8.1), modelled on the same restricted domain -/
+def jsNumToString (n : Num) : Option Str :=
+  let x : FV := match n with | .int _ i => ofInt i | .f32 x | .f64 x => x
+  match n, x with
+  | .int _ i, _ => if i.natAbs < 2^53 then some (intDec i) else none
+  | _, .nan => some (ofAscii "NaN")
+  | _, .inf s => some (ofAscii (if s then "-Infinity" else "Infinity"))
+  | _, .fin s m e =>
+    if m = 0 then some [48]
+    else if isIntegral m e ∧ truncAbs m e < 2^53 then
+      some ((if s then [45] else []) ++ natDec (truncAbs m e))
+    else none
+
+/-- Value.bool (value_boolean.go:10) -/
+def toBool : JV → Bool
+  | .undef | .null => false
+  | .bool b => b
+  | .num (.int _ i) => i != 0
+  | .num (.f32 x) => !(isZero x)           -- `value != 0` (NaN != 0 is true)
+  | .num (.f64 x) => !(isNaN x || isZero x)
+  | .str s => s.length != 0
+  | .arr _ | .obj _ => true
+
+def sUndefined := ofAscii "undefined"
+def sNull := ofAscii "null"
+def sTrue := ofAscii "true"
+def sFalse := ofAscii "false"
+def sObject := ofAscii "[object Object]"
+
+def joinComma : List Str → Str
+  | [] => []
+  | [a] => a
+  | a :: rest => a ++ [44] ++ joinComma rest
+
+mutual
+/-- JavaScript ToString (Value.string) on the modelled domain; `none` = outside the modelled domain -/
+def jsToString : JV → Option Str
+  | .undef => some sUndefined
+  | .null => some sNull
+  | .bool b => some (if b then sTrue else sFalse)
+  | .num n => jsNumToString n
+  | .str s => some s
+  | .arr es => (jsJoin es).map joinComma
+  | .obj _ => some sObject
+/-- Array.prototype.join pieces: undefined / null / holes print as "" -/
+def jsJoin : JVs → Option (List Str)
+  | .nil => some []
+  | .hole r => (jsJoin r).map ([] :: ·)
+  | .cons v r =>
+    match (if v.isNullish then some [] else jsToString v), jsJoin r with
+    | some a, some b => some (a :: b)
+    | _, _ => none
+end
+
+/-! ## Value.export (value.go:614) for `interface{}` parameters -/
+
+mutual
+/-- the Go type of an exported value, as a canonical string (only equality matters) -/
+def gvType : GV → Str
+  | .bool _ => ofAscii "bool"
+  | .num (.int k _) => ofAscii "int" ++ [k.bits, if k.signed then 1 else 0, if k = .int ∨ k = .uint then 1 else 0]
+  | .num (.f32 _) => ofAscii "f32"
+  | .num (.f64 _) => ofAscii "f64"
+  | .str _ => ofAscii "string"
+  | .anyNil | .any _ => ofAscii "iface"
+  | .ptrNil | .ptr _ => ofAscii "ptr"
+  | .slice es => ofAscii "[]" ++ gvElemType es
+  | .map _ => ofAscii "map[string]iface"
+  | .struct _ => ofAscii "struct"
+def gvElemType : GVs → Str
+  | .nil => ofAscii "iface"
+  | .cons v _ => gvType v
+end
+
+/-- (Kind, key Kind, elem Kind) triple compared by export's state machine (value.go:659-678);
+    0 = reflect.Invalid -/
+def kindTriple : GV → Nat × Nat × Nat
+  | .anyNil => (0, 0, 0)
+  | .bool _ => (1, 0, 0)
+  | .num (.int k _) => (match k with | .int => 2 | .i8 => 3 | .i16 => 4 | .i32 => 5 | .i64 => 6 | .uint => 7 | .u8 => 8 | .u16 => 9 | .u32 => 10 | .u64 => 11, 0, 0)
+  | .num (.f32 _) => (13, 0, 0)
+  | .num (.f64 _) => (14, 0, 0)
+  | .str _ => (24, 0, 0)
+  | .slice es => (23, 0, (match es with | .nil => 20 | .cons v _ => (kindOf v)))
+  | .map _ => (21, 24, 20)
+  | .any _ => (20, 0, 0)
+  | .ptrNil | .ptr _ => (22, 0, 0)
+  | .struct _ => (25, 0, 0)
+where
+  kindOf : GV → Nat
+    | .anyNil | .any _ => 20
+    | .bool _ => 1
+    | .num (.int k _) => (match k with | .int => 2 | .i8 => 3 | .i16 => 4 | .i32 => 5 | .i64 => 6 | .uint => 7 | .u8 => 8 | .u16 => 9 | .u32 => 10 | .u64 => 11)
+    | .num (.f32 _) => 13
+    | .num (.f64 _) => 14
+    | .str _ => 24
+    | .slice _ => 23
+    | .map _ => 21
+    | .ptrNil | .ptr _ => 22
+    | .struct _ => 25
+
+def GVs.toList : GVs → List GV
+  | .nil => []
+  | .cons v r => v :: r.toList
+
+def GVs.ofList : List GV → GVs
+  | [] => .nil
+  | v :: r => .cons v (GVs.ofList r)
+
+/-- wrap exported elements: an element of `[]interface{}` is an interface value -/
+def asAny : GV → GV
+  | .anyNil => .anyNil
+  | v => .any v
+
+/-- the tail of export for an Array once the elements are exported (value.go:671-693) -/
+def exportArrayFinish (elems : List GV) : Res GV :=
+  match elems.getLast? with
+  | none => .ok (.slice .nil)                                  -- state 0: []interface{}{}
+  | some last =>
+    let k0 := kindTriple (elems.headD .anyNil)
+    let uniform := elems.all (fun e => kindTriple e = k0)
+    if !uniform || k0.1 == 20 || k0.1 == 0 then
+      .ok (.slice (GVs.ofList (elems.map asAny)))              -- no common type: []interface{}
+    else if elems.all (fun e => gvType e = gvType last) then
+      .ok (.slice (GVs.ofList elems))                          -- []T
+    else .goPanic                                              -- reflect.Set: value not assignable (l.691)
+
+mutual
+def exportV : JV → Res GV
+  | .undef | .null => .ok .anyNil
+  | .bool b => .ok (.bool b)
+  | .num n => .ok (.num n)
+  | .str s => .ok (.str s)
+  | .arr es => (exportElems es).bind exportArrayFinish
+  | .obj ps => (exportProps ps).map .map
+/-- holes are skipped (`!obj.hasProperty(name)`, value.go:652) -/
+def exportElems : JVs → Res (List GV)
+  | .nil => .ok []
+  | .hole r => exportElems r
+  | .cons v r => (exportV v).bind (fun a => (exportElems r).map (a :: ·))
+/-- undefined-valued properties are skipped (value.go:700) -/
+def exportProps : JPs → Res GPs
+  | .nil => .ok .nil
+  | .cons k v r =>
+    match v with
+    | .undef => exportProps r
+    | _ => (exportV v).bind (fun a => (exportProps r).map (fun m => GPs.set k (asAny a) m))
+end
+
+/-! ## convertCallParameter (runtime.go:341) -/
+
+/-- the parts in which the property text (Spec) and the code (Model) may differ -/
+structure Leaf where
+  num : Num → NT → Res Num            -- numeric conversion
+  numStr : Num → Option Str           -- number → Go string parameter
+  holeIsUndefined : Bool              -- an array hole converts like `undefined` (else: left at the zero value)
+  ptrAnyPanics : Bool                 -- `*interface{}` targets: the pointer is made to the DYNAMIC type (l.402) and the
+                                      -- later reflect Set/Call panics with a type mismatch
+
+/-- pointers: undefined/null → nil pointer, otherwise a fresh pointer chain to the converted pointee (l.387) -/
+def GT.isAny : GT → Bool
+  | .any => true
+  | _ => false
+
+def ptrWrap (L : Leaf) (t : GT) (v : JV) (r : Res GV) : Res GV :=
+  if t.depth > 0 ∧ v.isNullish then .ok .ptrNil
+  else if t.depth > 0 ∧ t.base.isAny ∧ L.ptrAnyPanics then r.bind (fun _ => .goPanic)
+  else r.map (wrapPtr t.depth)
+
+def natKey (i : Nat) : Str := natDec i
+
+/-- convertCallParameter(undefined, t) for a non-pointer type t (what `convB L .undef t` computes) -/
+def convUndefB (t : GT) : Res GV :=
+  match t with
+  | .any => .ok .anyNil
+  | .bool => .ok (.bool false)
+  | .str => .ok (.str sUndefined)
+  | _ => .typeErr
+
+mutual
+/-- convertCallParameter for a non-pointer target type `t` (pointer layers are handled by `ptrWrap`) -/
+def convB (L : Leaf) (v : JV) (t : GT) : Res GV :=
+  match t with
+  | .ptr _ => .typeErr                                          -- not reached: `t` is a base type
+  | .any => (exportV v).map asAny                               -- l.376
+  | .bool => .ok (.bool (toBool v))                             -- l.409
+  | .str =>                                                     -- l.411, l.582
+    match v with
+    | .str s => .ok (.str s)
+    | .num n => (match L.numStr n with | some s => .ok (.str s) | none => .goPanic)
+    | _ => (match jsToString v with | some s => .ok (.str s) | none => .goPanic)
+  | .num nt =>                                                  -- l.418
+    match v with
+    | .num n => (L.num n nt).map .num
+    | _ => .typeErr
+  | .slice tt =>                                                -- l.422
+    match v with
+    | .arr es => (convElems L es tt).map .slice
+    | _ => .typeErr
+  | .map tt =>                                                  -- l.488
+    match v with
+    | .obj ps => (convProps L ps tt).map .map
+    | .arr es => (convIndexed L es 0 tt).map .map
+    | _ => .typeErr
+  | .struct fs =>                                               -- l.541
+    match v with
+    | .obj ps => convFields L ps (.struct fs) (GT.zero (.struct fs))
+    | _ => .typeErr
+def convElems (L : Leaf) (es : JVs) (tt : GT) : Res GVs :=
+  match es with
+  | .nil => .ok .nil
+  | .hole r =>
+    (if L.holeIsUndefined then ptrWrap L tt .undef (convUndefB tt.base) else .ok tt.zero).bind
+      (fun a => (convElems L r tt).map (.cons a ·))
+  | .cons v r => (ptrWrap L tt v (convB L v tt.base)).bind (fun a => (convElems L r tt).map (.cons a ·))
+def convProps (L : Leaf) (ps : JPs) (tt : GT) : Res GPs :=
+  match ps with
+  | .nil => .ok .nil
+  | .cons k v r =>
+    (ptrWrap L tt v (convB L v tt.base)).bind (fun a => (convProps L r tt).map (fun m => .cons k a m))
+/-- an Array given for a map parameter: its index properties are enumerated -/
+def convIndexed (L : Leaf) (es : JVs) (i : Nat) (tt : GT) : Res GPs :=
+  match es with
+  | .nil => .ok .nil
+  | .hole r => convIndexed L r (i+1) tt
+  | .cons v r =>
+    (ptrWrap L tt v (convB L v tt.base)).bind (fun a => (convIndexed L r (i+1) tt).map (fun m => .cons (natKey i) a m))
+/-- the struct loop over o.propertyOrder (l.545); `acc` is the struct being filled -/
+def convFields (L : Leaf) (ps : JPs) (st : GT) (acc : GV) : Res GV :=
+  match ps with
+  | .nil => .ok acc
+  | .cons k v r =>
+    match fieldIndexByName st k with
+    | none => .typeErr                                          -- l.549 field does not exist
+    | some idx =>
+      match typeAt st idx with
+      | none => .typeErr
+      | some ft => (ptrWrap L ft v (convB L v ft.base)).bind (fun a => convFields L r st (gvSetAt acc idx a))
+end
+
+def conv (L : Leaf) (v : JV) (t : GT) : Res GV := ptrWrap L t v (convB L v t.base)
+
+/-- the code: convertNumeric, Go `%v` formatting, holes skipped -/
+def modelLeaf : Leaf := { num := convertNumeric, numStr := goFmtV, holeIsUndefined := false, ptrAnyPanics := true }
+
+def convertCallParameter (v : JV) (t : GT) : Res GV := conv modelLeaf v t
+
+/-! ## the reflect.Func wrapper (runtime.go:707) -/
+
+/-- a Go function signature: parameter types; for a variadic function the last entry is the ELEMENT type
+    of the final `...T` parameter -/
+structure Sig where
+  ins : List GT
+  variadic : Bool
+
+def GVs.ofArr (l : List GV) : GVs := GVs.ofList l
+
+/-- convert the fixed (non-variadic-tail) arguments one by one; first failure wins -/
+def convArgs (L : Leaf) : List JV → List GT → Res (List GV)
+  | [], _ => .ok []
+  | _, [] => .ok []
+  | a :: as, t :: ts => (conv L a t).bind (fun g => (convArgs L as ts).map (g :: ·))
+
+def convAll (L : Leaf) (as : List JV) (t : GT) : Res (List GV) :=
+  match as with
+  | [] => .ok []
+  | a :: r => (conv L a t).bind (fun g => (convAll L r t).map (g :: ·))
+
+/-- what the Go callee receives (its parameter list; the variadic tail as one slice), or the error -/
+def callWrapper (L : Leaf) (sig : Sig) (args : List JV) : Res (List GV) :=
+  let nargs := sig.ins.length
+  if ¬ sig.variadic then
+    if args.length ≠ nargs then .rangeErr                                   -- l.716
+    else convArgs L args sig.ins
+  else
+    if args.length < nargs - 1 then .rangeErr                                -- l.713
+    else
+      let fixedT := sig.ins.take (nargs - 1)
+      let et := sig.ins.getLastD .any
+      let fixedA := args.take (nargs - 1)
+      let tailA := args.drop (nargs - 1)
+      (convArgs L fixedA fixedT).bind (fun fixed =>
+        -- l.743: exactly nargs arguments: try the last one as the whole variadic slice
+        match tailA with
+        | [a] =>
+          (match conv L a (.slice et) with
+           | .ok s => .ok (fixed ++ [s])                                     -- CallSlice
+           | .typeErr => (conv L a et).map (fun g => fixed ++ [.slice (.cons g .nil)])
+           | .rangeErr => .rangeErr
+           | .goPanic => .goPanic)
+        | _ => (convAll L tailA et).map (fun gs => fixed ++ [.slice (GVs.ofList gs)]))
+
+/-! ## Value.toReflectValue (value.go:741): the conversion used by slice / array / map writes -/
+
+/-- Value.float64 (value_number.go:46) on primitives; `none` = Go panic (`float32` has no case; objects are
+    not modelled) -/
+def toFloat : JV → Option FV
+  | .undef => some .nan
+  | .null => some zero
+  | .bool b => some (if b then one else zero)
+  | .num (.int _ i) => some (ofInt i)
+  | .num (.f64 x) => some x
+  | .num (.f32 _) => none
+  | .str s => some (OttoVerif.PN.parseNumber s)
+  | .arr _ | .obj _ => none
+
+/-- toIntegerFloat (value_number.go:117) -/
+def toIntegerFloat (f : FV) : FV :=
+  if isInf f then f
+  else if isNaN f then zero
+  else if lt zero f then floor f
+  else ceil f
+
+def two63 : FV := .fin false 1 63
+def negTwo63 : FV := .fin true 1 63
+def two64 : FV := .fin false 1 64
+
+/-- Value.number().int64 (value_number.go:144) -/
+def numberInt64 (v : JV) : Option Int :=
+  let viaFloat : Option Int := (toFloat v).map (fun f =>
+    if isZero f then 0
+    else if isNaN f then 0
+    else if le two63 f then 2^63 - 1                 -- float >= floatMaxInt64
+    else if le f negTwo63 then -(2^63)               -- float <= floatMinInt64
+    else goInt64 f)
+  match v with
+  | .num (.int k i) =>
+    (match k with
+     | .i8 | .i16 | .u8 | .u16 | .u32 | .int | .i64 => some i
+     | _ => viaFloat)
+  | _ => viaFloat
+
+/-- Go (amd64) `uint64(f)` for 0 ≤ f: truncation below 2^64, else 0x8000000000000000 -/
+def goUint64 (x : FV) : Int :=
+  match x with
+  | .fin false m e => let t : Int := truncAbs m e; if t < 2^64 then t else 2^63
+  | .fin true m e => let t : Int := truncAbs m e; if t = 0 then 0 else 2^63   -- not reached (range-checked)
+  | _ => 2^63
+
+/-- `_, frac := math.Modf(x); frac > 0` -/
+def fracPositive : FV → Bool
+  | .fin false m e => !isIntegral m e
+  | _ => false
+
+def smallestF32 : FV := .fin false 1 (-149)
+
+/-- Value.toReflectValue for primitive values and scalar / interface{} targets.
+    A returned `error` is reported as `.goPanic`: every caller (goSliceObject.setValue, goArrayObject.setValue,
+    goMapObject.toValue) does `panic(err)` with the plain Go error. -/
+def toReflectValue (v : JV) (t : GT) : Res GV :=
+  let pre : Bool :=                                            -- l.743-758
+    match t with
+    | .num .f32 | .num .f64 | .any => false
+    | _ => (match v with | .num (.f32 x) | .num (.f64 x) => fracPositive x | _ => false)
+  if pre then .goPanic else
+  match t with
+  | .bool => .ok (.bool (toBool v))                            -- l.761
+  | .num (.i k) =>
+    (match k with
+     | .int | .i64 =>                                          -- l.763, l.789
+       (match toFloat v with
+        | none => .goPanic
+        | some f =>
+          let tmp := toIntegerFloat f
+          if lt tmp negTwo63 || lt two63 tmp then .goPanic
+          else .ok (.num (.int k (goInt64 tmp))))
+     | .uint | .u64 =>                                         -- l.797, l.823
+       (match toFloat v with
+        | none => .goPanic
+        | some f =>
+          let tmp := toIntegerFloat f
+          if lt tmp zero || lt two64 tmp then .goPanic
+          else .ok (.num (.int k (goUint64 tmp))))
+     | _ =>                                                    -- Int8/16/32, Uint8/16/32
+       (match numberInt64 v with
+        | none => .goPanic
+        | some tmp => if tmp < k.lo ∨ tmp > k.hi then .goPanic else .ok (.num (.int k tmp))))
+  | .num .f32 =>                                               -- l.831
+    (match toFloat v with
+     | none => .goPanic
+     | some tmp =>
+       let a := abs tmp
+       if lt zero a && (lt a smallestF32 || lt maxF32 a) then .goPanic
+       else .ok (.num (.f32 (toF32 tmp))))
+  | .num .f64 => (match toFloat v with | none => .goPanic | some x => .ok (.num (.f64 x)))   -- l.841
+  | .str => (match jsToString v with | some s => .ok (.str s) | none => .goPanic)            -- l.844
+  | .any =>                                                    -- default branch, l.853
+    (match v with
+     | .undef | .null => .goPanic            -- reflect.ValueOf(nil) is the invalid Value; Set panics
+     | .arr _ | .obj _ => (exportV v).map asAny
+     | .bool b => .ok (.any (.bool b))
+     | .num n => .ok (.any (.num n))
+     | .str s => .ok (.any (.str s)))
+  | _ => .goPanic                                              -- containers/pointers: not modelled, never generated
+
+/-- what a script reads back: toValue widens a float32 to a float64 payload (value.go:296) -/
+def jsView : GV → Option GV
+  | .num (.f32 x) => some (.num (.f64 x))
+  | .anyNil | .ptrNil => none                       -- nil reads as undefined (value.go:325)
+  | .any v => jsView v                              -- the dynamic value
+  | .ptr (.struct fs) => some (.ptr (.struct fs))   -- a *struct stays a bridged struct object
+  | .ptr (.num n) => some (.num n)                  -- drilled through by the reflect path, which keeps float32 (value.go:319,353)
+  | .ptr v => jsView v
+  | g => some g
+
+/-! ## bridged slices: shared backing arrays (type_go_slice.go) -/
+
+/-- a slice header over a heap of backing arrays (offset is always 0 here) -/
+structure Hdr where
+  addr : Nat
+  len : Nat
+  cap : Nat
+deriving DecidableEq, Repr, Inhabited
+
+/-- the Go variable `sl` and the reflect.Value copied into the JavaScript object share `heap[addr]` -/
+structure SliceSt where
+  heap : List (List GV)
+  go : Hdr
+  js : Hdr
+  et : GT
+
+def listSet {α} : List α → Nat → α → List α
+  | [], _, _ => []
+  | _ :: r, 0, x => x :: r
+  | a :: r, n+1, x => a :: listSet r n x
+
+def SliceSt.arr (s : SliceSt) (a : Nat) : List GV := s.heap.getD a []
+
+def SliceSt.write (s : SliceSt) (a i : Nat) (x : GV) : SliceSt :=
+  { s with heap := listSet s.heap a (listSet (s.arr a) i x) }
+
+/-- contents seen through a header -/
+def SliceSt.view (s : SliceSt) (h : Hdr) : List GV := (s.arr h.addr).take h.len
+
+/-- Go `append(sl, x)` / reflect.Append on header h: in place if capacity allows, else a fresh array
+    (Go's growth policy only matters through `cap`; the new capacity is supplied by the caller) -/
+def SliceSt.appendTo (s : SliceSt) (h : Hdr) (x : GV) (newCap : Nat) : SliceSt × Hdr :=
+  if h.len < h.cap then
+    (s.write h.addr h.len x, { h with len := h.len + 1 })
+  else
+    let fresh := (s.view h ++ [x]) ++ List.replicate (newCap - (h.len + 1)) s.et.zero
+    ({ s with heap := s.heap ++ [fresh] }, { addr := s.heap.length, len := h.len + 1, cap := max newCap (h.len + 1) })
+
+/-- one step of a slice history -/
+inductive SOp where
+  | jsRead (i : Nat)
+  | jsWrite (i : Nat) (v : JV)
+  | jsLen
+  | jsSetLen (n : Nat)
+  | jsDelete (i : Nat)
+  | goRead (i : Nat)
+  | goWrite (i : Nat) (x : GV)
+  | goLen
+  | goAppend (x : GV) (newCap : Nat)
+
+/-- what a step shows: a Go value, JavaScript `undefined`, a length, nothing, or a failure -/
+inductive Obs where
+  | val (g : GV)
+  | undef
+  | len (n : Nat)
+  | unit
+  | ignored              -- sloppy-mode [[Put]]/[[Delete]] that failed silently
+  | goPanic
+  | typeErr
+  | rangeErr
+
+def Obs.isFail : Obs → Bool
+  | .goPanic | .typeErr | .rangeErr => true
+  | _ => false
+
+/-- the two places where the property text (Spec) and the code (Model) may differ on container writes -/
+structure StoreSem where
+  cv : JV → GT → Res GV          -- conversion applied to a stored value
+  setLenPanics : Bool            -- shrinking `length` within capacity hits reflect's "unaddressable" panic
+
+def sliceStep (S : StoreSem) (s : SliceSt) : SOp → SliceSt × Obs
+  | .jsRead i =>                                                -- goSliceGetOwnProperty
+    (s, match ((s.view s.js)[i]?).bind jsView with | some g => .val g | none => .undef)
+  | .jsLen => (s, .len s.js.len)
+  | .goLen => (s, .len s.go.len)
+  | .goRead i => (s, match (s.view s.go)[i]? with | some g => .val g | none => .goPanic)   -- Go index out of range
+  | .goWrite i x => if i < s.go.len then (s.write s.go.addr i x, .unit) else (s, .goPanic)
+  | .goAppend x nc => let (s', h) := s.appendTo s.go x nc; ({ s' with go := h }, .unit)
+  | .jsWrite i v =>                                             -- goSliceObject.setValue (l.55)
+    match S.cv v s.et with
+    | .ok x =>
+      if i < s.js.len then (s.write s.js.addr i x, .unit)
+      else if i = s.js.len then
+        let (s', h) := s.appendTo s.js x (if s.js.cap = 0 then 1 else 2 * s.js.cap)   -- reflect.Append growth (small slices double)
+        ({ s' with js := h }, .unit)
+      else (s, .ignored)
+    | .goPanic => (s, .goPanic)
+    | .typeErr => (s, .typeErr)
+    | .rangeErr => (s, .rangeErr)
+  | .jsSetLen n =>                                              -- goSliceObject.setLength (l.33)
+    if n = s.js.len then (s, .unit)
+    else if n < s.js.cap then
+      (if S.setLenPanics then (s, .goPanic)                     -- reflect.Value.SetLen using unaddressable value
+       else ({ s with js := { s.js with len := n } }, .unit))
+    else
+      let fresh := s.view s.js ++ List.replicate (n - s.js.len) s.et.zero
+      ({ s with heap := s.heap ++ [fresh], js := { addr := s.heap.length, len := n, cap := n } }, .unit)
+  | .jsDelete i =>                                              -- goSliceDelete (l.133)
+    if i < s.js.len then (s.write s.js.addr i s.et.zero, .unit) else (s, .ignored)
+
+/-- run a history; it stops at the first failing step (the runtime is not reused after a failure) -/
+def sliceRun (S : StoreSem) (s : SliceSt) : List SOp → SliceSt × List Obs
+  | [] => (s, [])
+  | op :: rest =>
+    let (s', o) := sliceStep S s op
+    if o.isFail then (s', [o])
+    else let (s'', os) := sliceRun S s' rest; (s'', o :: os)
+
+/-- the code: toReflectValue, and SetLen on the unaddressable reflect.Value panics -/
+def modelStore : StoreSem := { cv := toReflectValue, setLenPanics := true }
+
+def SliceSt.init (et : GT) (elems : List GV) (cap : Nat) : SliceSt :=
+  let c := max cap elems.length
+  { heap := [elems ++ List.replicate (c - elems.length) et.zero], go := ⟨0, elems.length, c⟩, js := ⟨0, elems.length, c⟩, et := et }
+
+/-! ## bridged maps (type_go_map.go): one shared Go map, string keys -/
+
+inductive MOp where
+  | jsRead (k : Str)
+  | jsWrite (k : Str) (v : JV)
+  | jsDelete (k : Str)
+  | jsKeys
+  | goRead (k : Str)
+  | goWrite (k : Str) (x : GV)
+  | goDelete (k : Str)
+
+def GPs.get (k : Str) : GPs → Option GV
+  | .nil => none
+  | .cons k' v r => if k' = k then some v else GPs.get k r
+
+def GPs.del (k : Str) : GPs → GPs
+  | .nil => .nil
+  | .cons k' v r => if k' = k then r else .cons k' v (GPs.del k r)
+
+inductive MObs where
+  | val (g : GV) | undef | unit | keys (m : GPs) | goPanic | typeErr | rangeErr
+
+def MObs.isFail : MObs → Bool | .goPanic | .typeErr | .rangeErr => true | _ => false
+
+def mapStep (S : StoreSem) (et : GT) (m : GPs) : MOp → GPs × MObs
+  | .jsRead k => (m, match (m.get k).bind jsView with | some g => .val g | none => .undef)    -- goMapGetOwnProperty
+  | .goRead k => (m, match m.get k with | some g => .val g | none => .val et.zero)
+  | .jsWrite k v =>                                                            -- goMapDefineOwnProperty
+    (match S.cv v et with
+     | .ok x => (m.set k x, .unit)
+     | .goPanic => (m, .goPanic)
+     | .typeErr => (m, .typeErr)
+     | .rangeErr => (m, .rangeErr))
+  | .goWrite k x => (m.set k x, .unit)
+  | .jsDelete k => (m.del k, .unit)                                            -- goMapDelete
+  | .goDelete k => (m.del k, .unit)
+  | .jsKeys => (m, .keys m)                                                    -- goMapEnumerate (compared sorted)
+
+def mapRun (S : StoreSem) (et : GT) (m : GPs) : List MOp → GPs × List MObs
+  | [] => (m, [])
+  | op :: rest =>
+    let (m', o) := mapStep S et m op
+    if o.isFail then (m', [o])
+    else let (m'', os) := mapRun S et m' rest; (m'', o :: os)
+
+/-! ## bridged structs (type_go_struct.go), always through a pointer (addressable) -/
+
+def Fields.toList : Fields → Nat → List (Nat × Str × Bool × GT)
+  | .nil, _ => []
+  | .cons n _ a ty rest, i => (i, n, a, ty) :: rest.toList (i+1)
+
+/-- reflect (Value).FieldByName: breadth-first over embedded structs; at the shallowest depth with a match
+    the match must be unique (Go's promotion rule), tags play no role -/
+def fieldByNameBFS : Nat → List (List Nat × Fields) → Str → Option (List Nat)
+  | 0, _, _ => none
+  | fuel+1, level, name =>
+    let all := level.flatMap (fun pf => (pf.2.toList 0).map (fun f => (pf.1 ++ [f.1], f.2.1, f.2.2.1, f.2.2.2)))
+    match all.filter (fun f => f.2.1 = name) with
+    | [h] => some h.1
+    | _ :: _ :: _ => none
+    | [] =>
+      let next := all.filterMap (fun f =>
+        if f.2.2.1 then (match f.2.2.2 with | .struct fs => some (f.1, fs) | _ => none) else none)
+      if next.isEmpty then none else fieldByNameBFS fuel next name
+
+/-- goStructObject.getValue (type_go_struct.go:37): index path of the field a property name reads, if any
+    (methods are not modelled): fieldIndexByName first, then the FieldByName fallback for exported-looking names -/
+def structGetPath (st : GT) (name : Str) : Option (List Nat) :=
+  match fieldIndexByName st name with
+  | some p => some p
+  | none =>
+    if validGoStructName name then
+      (match st.base with
+       | .struct fs => fieldByNameBFS 16 [([], fs)] name
+       | _ => none)
+    else none
+
+inductive TOp where
+  | jsRead (name : Str)
+  | jsWrite (name : Str) (v : JV)
+  | goRead (path : List Nat)
+  | goWrite (path : List Nat) (x : GV)
+
+/-- observations: a field value, `undefined` (hidden / unknown name), done, or an error.
+    A write to a name that is not a bridged field lands on the JavaScript wrapper object (`shadow`) and a
+    later read of that name returns the script's own value (`shadowRead`). -/
+inductive TObs where
+  | val (g : GV) | undef | unit | shadow | shadowRead | goPanic | typeErr | rangeErr
+
+def TObs.isFail : TObs → Bool | .goPanic | .typeErr | .rangeErr => true | _ => false
+
+structure StructSt where
+  cur : GV
+  shadows : List Str
+
+/-- `byGoName`: reads fall back to reflect FieldByName (type_go_struct.go:44), which also finds `json:"-"` fields -/
+def structStep (L : Leaf) (byGoName : Bool) (st : GT) (s : StructSt) : TOp → StructSt × TObs
+  | .jsRead name =>                                            -- goStructGetOwnProperty
+    (s, match (if byGoName then structGetPath st name else fieldIndexByName st name) with
+        | some p => (match (gvAt s.cur p).bind jsView with | some g => .val g | none => .undef)
+        | none => if s.shadows.contains name then .shadowRead else .undef)
+  | .goRead p => (s, match gvAt s.cur p with | some g => .val g | none => .undef)
+  | .goWrite p x => ({ s with cur := gvSetAt s.cur p x }, .unit)
+  | .jsWrite name v =>                                         -- goStructPut → setValue (l.63)
+    match fieldIndexByName st name with
+    | none => ({ s with shadows := name :: s.shadows }, .shadow)
+    | some p =>
+      match typeAt st.base p with
+      | none => (s, .shadow)
+      | some ft =>
+        match conv L v ft with
+        | .ok x => ({ s with cur := gvSetAt s.cur p x }, .unit)
+        | .typeErr => (s, .typeErr)
+        | .rangeErr => (s, .rangeErr)
+        | .goPanic => (s, .goPanic)
+
+def structRun (L : Leaf) (byGoName : Bool) (st : GT) (s : StructSt) : List TOp → StructSt × List TObs
+  | [] => (s, [])
+  | op :: rest =>
+    let (s', o) := structStep L byGoName st s op
+    if o.isFail then (s', [o])
+    else let (s'', os) := structRun L byGoName st s' rest; (s'', o :: os)
 
 end OttoVerif.C16
